@@ -283,6 +283,11 @@ def run_pipeline(prop, tier, seed, workdir, shard=None):
                     miss += 1
                     continue
                 verb, case = lines.get(k, ("?", "?"))
+                if case.endswith(" (lenient))") and not (go[k].startswith("ok ") and lv.startswith("ok ")):
+                    # corrupted texts: the implementation may be more lenient than the documented
+                    # grammar (or reject what the model accepts); only "both accept" must agree
+                    stats["lenient_skipped"] = stats.get("lenient_skipped", 0) + 1
+                    continue
                 diffs.append({"id": k, "verb": verb, "case": case, "go": go[k], "model": lv})
         stats["oracle_miss"] = miss
     stats["correspondence_cases"] = ncases
